@@ -105,6 +105,23 @@ func (t *Type) RemoveAttr(attr string) {
 
 // AddRel adds a relationship to the type.
 func (t *Type) AddRel(rel Rel) error {
+	err := t.checkRel(rel)
+	if err != nil {
+		return err
+	}
+
+	if t.Rels == nil {
+		t.Rels = map[string]Rel{}
+	}
+
+	t.Rels[rel.FromName] = rel
+
+	return nil
+}
+
+// checkRel reports why the relationship can not be added to the type. It
+// returns nil if it can.
+func (t *Type) checkRel(rel Rel) error {
 	// Validation
 	if rel.FromName == "" {
 		return fmt.Errorf("jsonapi: relationship name is empty")
@@ -120,12 +137,6 @@ func (t *Type) AddRel(rel Rel) error {
 			return fmt.Errorf("jsonapi: relationship name %q is already used", rel.FromName)
 		}
 	}
-
-	if t.Rels == nil {
-		t.Rels = map[string]Rel{}
-	}
-
-	t.Rels[rel.FromName] = rel
 
 	return nil
 }
